@@ -479,6 +479,14 @@ def compile_maths_expression(compiler, expr, root, args):
 a_ops = {x + "=": v for x, v in m_ops.items()}
 
 
+def single_target(compiler, model, node, what):
+    """Python allows only a name, an attribute, or a subscription as the
+    target of an augmented or annotated assignment."""
+    if isinstance(node, (ast.List, ast.Tuple, ast.Starred)):
+        compiler._syntax_error(model, f"illegal target for {what}")
+    return node
+
+
 @pattern_macro(
     [x for x, (_, v) in a_ops.items() if v is not None], [FORM, oneplus(FORM)]
 )
@@ -492,7 +500,9 @@ def compile_augassign_expression(compiler, expr, root, target, values):
         )
 
     op = a_ops[root][0]
-    target = compiler._storeize(target, compiler.compile(target))
+    target = single_target(
+        compiler, target, compiler._storeize(target, compiler.compile(target)),
+        "augmented assignment")
     ret = compiler.compile(values[0])
     return ret + asty.AugAssign(expr, target=target, value=ret.force_expr, op=op())
 
@@ -602,6 +612,8 @@ def compile_assign(
             ann_result = compiler.compile(ann)
             result = ann_result + result
 
+        if ann is not None:
+            single_target(compiler, target, st_targets[0], "annotation")
         target_kwarg = dict(target = st_targets[0])
         if is_assignment_expr:
             node = asty.NamedExpr
